@@ -437,15 +437,30 @@ def _weights(model: Model, W: RuleResult):
         else:
             W.bad(f, rets[0], "the weights returned by %s are not 1/len(samples) replicated len(samples) times: %s" % (name, verdict), what=what)
     d = model.func(MCMC, "dummy1d")
-    src = [s for s in own_nodes(d.node) if isinstance(s, ast.Assign) and isinstance(s.targets[0], ast.Name)
-           and isinstance(s.value, ast.BinOp) and isinstance(s.value.op, ast.Div)
-           and isinstance(s.value.right, ast.Call) and isinstance(s.value.right.func, ast.Attribute) and s.value.right.func.attr == "sum"
-           and ast.unparse(s.value.right.func.value) == ast.unparse(s.value.left) == s.targets[0].id]
+    from ..domains import tensorterm as tt
     rets = [r for r in own_nodes(d.node) if isinstance(r, ast.Return) and isinstance(r.value, ast.Tuple)]
-    if src and rets and isinstance(rets[0].value.elts[1], ast.Name) and rets[0].value.elts[1].id == src[-1].targets[0].id:
-        W.ok(d.fq, "dummy1d normalises: %s" % norm_stmt(src[-1]))
+    ev = tt.TermEval({})
+    try:
+        ev.run(d.node.body)
+    except tt.Unsupported as e:
+        W.undecided(d, rets[0] if rets else d.node, "cannot interpret dummy1d: %s" % e)
+        return
+    got = ev.returned
+    if not (got is not None and got[0] == "op" and got[1] == "tuple" and len(got) == 4):
+        W.bad(d, rets[0] if rets else d.node, "dummy1d must return (samples, weights)")
+        return
+    w = got[3]
+    c, t = tt._split_coef(w)
+    factors = list(t[1]) if t[0] == "had" else [t]
+    norm = [f_ for f_ in factors if f_[0] == "recip" and f_[1][0] == "op" and f_[1][1] == "sum" and len(f_[1]) == 3]
+    ok = False
+    if len(norm) == 1:
+        rest = [f_ for f_ in factors if f_ is not norm[0]]
+        ok = bool(rest) and tt.scale(c, tt.had(*rest)) == norm[0][1][2]
+    if ok:
+        W.ok(d.fq, "dummy1d normalises: weights = X / sum(X) with X = %s" % tt.show(norm[0][1][2])[:120])
     else:
-        W.bad(d, rets[0] if rets else d.node, "dummy1d must return weights normalised by their sum")
+        W.bad(d, rets[0] if rets else d.node, "dummy1d must return weights normalised by their sum (returned: %s)" % tt.show(w)[:200])
     # the integral
     it = model.func(MCQ, "_integrate")
     loops = [n for n in own_nodes(it.node) if isinstance(n, ast.For)]
